@@ -164,6 +164,17 @@ impl Prop for C02 {
                     check_rescan(&mut out, &format!("{}+relayout", w.name), &l2.render(), &cfg);
                 }
             }
+            // the same program with lone CRs as line breaks between tokens
+            if rng.chance(1, 6) {
+                let lay = match &w.layout {
+                    Some(l) => l.clone(),
+                    None => Layout::from_text(&w.text),
+                };
+                let text = lay.with_cr_endings().render();
+                // (multi-line tokens keep their own endings; a literal must still be followed by LF or CR)
+                out.count("gen.cr-line-endings");
+                check_rescan(&mut out, &format!("{}+cr-endings", w.name), &text, &cfg);
+            }
             if k == 0 && idx < 2 && ok {
                 out.sample = Some(json!({"source": w.name, "config": cfg.short(), "input": short(&w.text, 300)}));
             }
